@@ -139,9 +139,9 @@ package internal
 //@   loop 1 invariant pInv(p) && 0 <= i && n <= len(p.events)
 //@   // readable, hang-up or error on a descriptor with a read armed completes the read;
 //@   // likewise for writes: no armed operation is left behind when the peer goes away
-//@   assert at "events&slot.Events&PollerReadEvent == PollerReadEvent": (event.Mask & 25 != 0 && armed(slot, PollerReadEvent)) ==>
+//@   assert at "PollerReadEvent == PollerReadEvent": (event.Mask & 25 != 0 && armed(slot, PollerReadEvent)) ==>
 //@          events&slot.Events&PollerReadEvent == PollerReadEvent
-//@   assert at "events&slot.Events&PollerWriteEvent == PollerWriteEvent": (events & 28 != 0 && armed(slot, PollerWriteEvent)) ==>
+//@   assert at "PollerWriteEvent == PollerWriteEvent": (events & 28 != 0 && armed(slot, PollerWriteEvent)) ==>
 //@          events&slot.Events&PollerWriteEvent == PollerWriteEvent
 //@   // a handler runs only for a direction that is armed right now (stale entries are filtered),
 //@   // and its interest is removed before it runs
@@ -194,10 +194,16 @@ package internal
 // count is the oracle for "the delay has elapsed": a stale batch entry for a timer that was
 // cancelled and re-armed in the same poll cycle reads EAGAIN and must not run the callback.
 //@ func (*Timer).Set$1
-//@   prop C04
+//@   prop C04, C03
 //@   requires t != nil && tiInv(t) && cb != nil
+//@   requires !armed(&t.slot, PollerReadEvent)
 //@   remember after call syscall.Read: expired = (result0 == 8 && result1 == nil)
+//@   remember after call SetRead: rearmFailed = (result != nil)
 //@   assert call cb: expired
+//@   // a stale event does not lose the schedule: the callback runs now, or the timer keeps waiting
+//@   // (armed and counted again), unless the poller itself refuses the registration
+//@   consumes cb unless armed(&t.slot, PollerReadEvent) || rearmFailed
+//@   ensures [stale-keeps-waiting] invoked(cb) == 0 && !rearmFailed ==> t.poller.pending == old(t.poller.pending) + 1
 
 //@ func (*Timer).Unset
 //@   prop C04, C03
